@@ -105,6 +105,7 @@ class Harness:
         self.cfg = TransferConfig(multipart_threshold=10 * 1024 * 1024, multipart_chunksize=5 * 1024 * 1024, max_request_concurrency=2)
         self.mgr = TransferManager(self.client, self.cfg, osutil=self.osu)
         self.n = 0
+        self.bucket = 'bkt'
         if fail_part:
             self.s3.api_fail_ops = {'UploadPart', 'UploadPartCopy'}
 
@@ -167,16 +168,16 @@ class Harness:
             if method == 'upload':
                 path = os.path.join(self.tmp, key)
                 self.osu.virtual_sizes[path] = size
-                f = self.mgr.upload(path, 'bkt', key, extra_args=dict(extra), subscribers=subs)
+                f = self.mgr.upload(path, self.bucket, key, extra_args=dict(extra), subscribers=subs)
             elif method == 'download':
-                self.s3.api_sizes[('bkt', key)] = size
-                f = self.mgr.download('bkt', key, os.path.join(self.tmp, key + '.out'), extra_args=dict(extra), subscribers=subs)
+                self.s3.api_sizes[(self.bucket, key)] = size
+                f = self.mgr.download(self.bucket, key, os.path.join(self.tmp, key + '.out'), extra_args=dict(extra), subscribers=subs)
             elif method == 'copy':
                 self.s3.api_sizes[('srcbkt', key)] = size
                 self.last_copy_source = {'Bucket': 'srcbkt', 'Key': key}
-                f = self.mgr.copy(self.last_copy_source, 'bkt', key, extra_args=dict(extra), subscribers=subs)
+                f = self.mgr.copy(self.last_copy_source, self.bucket, key, extra_args=dict(extra), subscribers=subs)
             else:
-                f = self.mgr.delete('bkt', key, extra_args=dict(extra), subscribers=subs)
+                f = self.mgr.delete(self.bucket, key, extra_args=dict(extra), subscribers=subs)
         except Exception as e:  # noqa
             return ('submit', e), self.calls_for(key)
         try:
@@ -335,6 +336,13 @@ def gen_cases(tier, seed):
             n = 6
             for i in range(n):
                 cases.append({'type': 'manager', 'checksum_mode': cm, 'fail_part': fail, 'cells': [list(c) for c in sub[i::n]]})
+    # the same argument table for bucket names of other classes: an S3 Express directory-bucket name, a dotted name (both checksum modes,
+    # a third of the cells each)
+    for bname in ('vfbucket--usw2-az1--x-s3', 'vf.dotted.bucket-name'):
+        for cm in ('when_supported', 'when_required'):
+            sub = [c for c in cells if c[1] != 'multi-fail' and (cm == 'when_supported' or c[0] == 'upload')]
+            k = {'vfbucket--usw2-az1--x-s3': 0, 'vf.dotted.bucket-name': 1}[bname]
+            cases.append({'type': 'manager', 'checksum_mode': cm, 'fail_part': False, 'bucket': bname, 'cells': [list(c) for c in sub[k::3]]})
     cases.append({'type': 'reject'})
     cases.append({'type': 'reject_other'})
     cases.append({'type': 'legacy'})
@@ -346,6 +354,8 @@ def gen_cases(tier, seed):
 
 def run_manager_cells(case):
     h = Harness(case['checksum_mode'], case['fail_part'])
+    if case.get('bucket'):
+        h.bucket = case['bucket']  # a bucket name of another class (an S3 Express directory bucket, a dotted name)
     viol = []
     stats = {'cells': 0, 'ops_compared': 0}
     keys = set()
